@@ -161,6 +161,45 @@ def rule_loops_finite(ctx, rid="R3.4"):
 _PROG = [None]
 
 
+class _ModScope:
+    """Stands in for a function when a module-level expression is judged."""
+    all_params = params = ()
+    outer = None
+
+    def __init__(self, mod):
+        self.mod = mod
+
+
+def _bound_names(f):
+    out = set(f.all_params)
+    for n in walk_body(f):
+        if isinstance(n, ast.Name) and isinstance(n.ctx, (ast.Store, ast.Del)):
+            out.add(n.id)
+        elif isinstance(n, (ast.Import, ast.ImportFrom)):
+            out |= {(a.asname or a.name).split(".")[0] for a in n.names}
+        elif isinstance(n, ast.ExceptHandler) and n.name:
+            out.add(n.name)
+    out |= set(f.nested)
+    return out
+
+
+def _module_constant(f, name):
+    """The value expression of `name` when it is a module-level name of f's module bound exactly once (no function declares it
+    global) and not shadowed by a binding in f or a function around f; else None."""
+    g = f
+    while g is not None and not isinstance(g, _ModScope):
+        if name in _bound_names(g):
+            return None
+        g = g.outer
+    binds = f.mod.bindings.get(name) or []
+    if len(binds) != 1 or not isinstance(binds[0][0], ast.expr) or not isinstance(binds[0][1], (ast.Assign, ast.AnnAssign)):
+        return None
+    for n in ast.walk(f.mod.tree):
+        if isinstance(n, ast.Global) and name in n.names:
+            return None
+    return binds[0][0]
+
+
 def _template_constant(f, e, depth=0):
     """Is the string expression e free of data: a literal, a concatenation / conditional of such, or a local only ever bound
     to such?  (Only then is it safe as the *template* of % or str.format.)"""
@@ -198,6 +237,11 @@ def _template_constant(f, e, depth=0):
                             arg = k.value
                     sites.append((g, arg))
         return bool(sites) and all(a is not None and _template_constant(g, a, depth + 1) for g, a in sites)
+    if isinstance(e, ast.Name) and _module_constant(f, e.id) is not None:
+        # a message template hoisted to a module constant: bound once, at module level, to a data-free string expression
+        return _template_constant(_ModScope(f.mod), _module_constant(f, e.id), depth + 1)
+    if isinstance(e, ast.Name) and isinstance(f, _ModScope):
+        return False
     if isinstance(e, ast.Name):
         # the definitions that reach this use (flow-sensitive: the same name may be a loop variable elsewhere in the function)
         from ..cfg import cfg_of, reaching_defs, node_exprs, walk_expr
